@@ -70,7 +70,7 @@ func batchIDOf(data []byte) string {
 	return r.BatchID
 }
 
-func runSignTape(fx *world.Fixture, p tPlan, root string) *tObs {
+func runSignTape(fx *world.Fixture, p tPlan, root string, stepCheck bool) *tObs {
 	obs := &tObs{Plan: p, Round: fx.Round}
 	w, err := fx.OpenShared(root)
 	if err != nil {
@@ -165,6 +165,9 @@ func runSignTape(fx *world.Fixture, p tPlan, root string) *tObs {
 					}
 				}
 			}
+		}
+		if !stepCheck {
+			return
 		}
 		what := fmt.Sprintf("node %d processing board[%d] %s from %s (batch %s)", j, k, m.Event, m.SenderAddr, batchIDOf(m.Data))
 		if expectRecon && collected != 1 {
@@ -361,9 +364,6 @@ func tailStr(xs []string, n int) []string {
 func c07Judge(o *tObs) *viol {
 	if o.Err != nil {
 		return violf("harness", "%v", o.Err)
-	}
-	if o.Viol != nil {
-		return nil // C06's business
 	}
 	p := o.Plan
 	for b := range p.Batches {
